@@ -53,7 +53,7 @@ func c10(r *core.Report, p *core.Prog, thorough bool) {
 	r.Rule("C10.gate", "every credit to a provider or delegate Reward in DistributeRewards/DistributeRewardsRandN is dominated by value != 0, !HasBeenKilled and !(stake < MinStake)")
 	r.Rule("C10.same-value", "in the proportional loop: credited value == recorded value, and credited + new running balance == old running balance on every edge; the loop carries exactly that new balance")
 	r.Rule("C10.service-charge", "the service charge credited to the provider is the value subtracted from the paid amount and the value recorded in the event")
-	r.Rule("C10.leftover", "equallyDistributeRewards receives the running balance left by the loop and nothing else; it is called only when that balance is > 0")
+	r.Rule("C10.leftover", "equallyDistributeRewards receives the running balance left by the loop and nothing else; it is called only when that balance is > 0, and it is given the same pools the proportional loop ranged over")
 	r.Rule("C10.equal", "equallyDistributeRewards: share and remainder come from one DistributeCoin(coins, len(pools)); each pool gets share, the first r pools one more, state and event updated together")
 	r.Rule("C10.arith", "no unguarded raw Coin subtraction in the distributors (value - serviceCharge must be checked)")
 	r.Rule("C10.randn", "getRandPools returns all pools when n >= len, else exactly n indices")
@@ -211,6 +211,36 @@ func c10(r *core.Report, p *core.Prog, thorough bool) {
 			}
 			r.Check(gt, "C10.leftover", name+":only-if-positive", p.Pos(eq[0].Pos()), "called only when the leftover is > 0")
 			r.Check(core.ErrLeadsToFailure(eq[0]), "C10.leftover", name+":err", p.Pos(eq[0].Pos()), "its error fails the distribution")
+			// the leftover goes to the very pools the proportional loop paid
+			var loopSlice ssa.Value
+			for _, rl := range RangeLoops(fn) {
+				if rl.L.Header == hdr {
+					loopSlice = rl.Slice
+				}
+			}
+			allOfSP := func(v ssa.Value) bool {
+				// produced by a method of the stake pool itself from nothing but the pool
+				c, ok := v.(*ssa.Call)
+				if !ok {
+					return false
+				}
+				cal := c.Common().StaticCallee()
+				return cal != nil && len(c.Call.Args) == 1 && c.Call.Args[0] == ssa.Value(fn.Params[0])
+			}
+			okSame, d := false, "the pools of the proportional loop were not identified"
+			if loopSlice != nil {
+				isMethodForm := eq[0].Common().StaticCallee() != nil && eq[0].Common().StaticCallee().Signature.Recv() != nil
+				switch {
+				case isMethodForm:
+					okSame = allOfSP(loopSlice)
+					d = "the method form pays every pool of the stake pool; the loop ranges over " + describe(loopSlice)
+				default:
+					pools := eq[0].Call.Args[1]
+					okSame = pools == loopSlice || (allOfSP(pools) && allOfSP(loopSlice))
+					d = "leftover pools " + describe(pools) + ", loop pools " + describe(loopSlice)
+				}
+			}
+			r.Check(okSame, "C10.leftover", name+":same-pools", p.Pos(eq[0].Pos()), "the rounding leftover is shared among exactly the pools the loop paid (a delegate outside the selection gets nothing); "+d)
 		}
 		// ---- arithmetic
 		for _, o := range RawCoinArith([]*ssa.Function{fn}) {
